@@ -20,14 +20,14 @@ func (c06) NumCases(tier string) int {
 	if tier == "thorough" {
 		return 1_500_000
 	}
-	return 40_000
+	return 30_000
 }
 
 func (c06) Describe() CheckInfo {
 	return CheckInfo{
 		Level: "exploration",
 		Rule: "seeded worlds of 1-6 Go files (non-canonical layouts, corpus inputs, unparseable and matching neighbours) x 1-3 generated patch files x all 32 flag combinations, " +
-			"run through gopatch's real main() on the simulated filesystem; a case is non-trivial when it contains at least one file that cannot match by construction; " +
+			"run through gopatch's real main() on the simulated filesystem; every tenth world is re-run with each operation of its fault-free run failed once (output stream at its first, last and a middle byte; neighbours' reads and writes, also persistently; kills): unmatched files must stay untouched and exit status 0 must still mean a complete echo; a case is non-trivial when it contains at least one file that cannot match by construction; " +
 			"distinct = distinct (template multiset, unmatched-file layout styles, flag set, patch channel) tuples",
 		Assumptions: []string{
 			"a file whose bytes lack the trigger identifier of every supplied change cannot be an instance of any '-' pattern (matcher false positives are property C01, not C06)",
@@ -35,7 +35,7 @@ func (c06) Describe() CheckInfo {
 		},
 		RealCode:       []string{"gopatch main()/runMain/mainCmd.Run, loader, patch.Parse/File.Apply, internal/*, go-flags, pkg/diff, x/tools/imports, go-intervals, go/parser, go/printer"},
 		Stubs:          []string{"package os (simulated filesystem, streams, exit)", "path/filepath filesystem half", "io/ioutil"},
-		RequiredProbes: []string{"unmatched-noncanonical", "unmatched-with-matching-neighbour", "print-only-echo", "diff-mode", "api-apply-unmatched", "verbose", "echo-adjacency-checked", "unmatched-readonly-or-odd-mode", "api-earlier-call-on-shared-patch"},
+		RequiredProbes: []string{"unmatched-noncanonical", "unmatched-with-matching-neighbour", "print-only-echo", "diff-mode", "api-apply-unmatched", "verbose", "echo-adjacency-checked", "unmatched-readonly-or-odd-mode", "api-earlier-call-on-shared-patch", "fault-fired", "fault-on-stdout-in-print-mode"},
 	}
 }
 
@@ -150,11 +150,140 @@ func (c06) Gen(env *Env, seed uint64, tier string, i int) *Case {
 		c.Spec.Knobs.StdinChunk = -16
 		c.Spec.Knobs.FileChunk = -64
 	}
+	if i%10 == 9 {
+		c.Sub = "fault"
+		c.Extra["rng"] = fmt.Sprint(r.Uint64())
+	}
 	c.RebuildArgs()
 	return c
 }
 
+// c06Faults: whatever goes wrong around them (output stream failing at any
+// byte, neighbours that cannot be read or written, a persistently full disk),
+// unmatched files stay untouched, and an exit status of 0 still means that
+// --print-only echoed every one of them completely.
+func c06Faults(env *Env, c *Case) []Violation {
+	var vs []Violation
+	seen := map[string]bool{}
+	base := c.Spec.Clone()
+	base.Faults = nil
+	init := c.InitialState()
+	judge := func(faults []world.Fault) {
+		spec := base.Clone()
+		spec.Faults = faults
+		r := env.Run(spec)
+		if len(r.Fired) == 0 || (r.Outcome != OutExit && r.Outcome != OutKilled) {
+			return
+		}
+		first := r.Fired[0]
+		env.Probe("fault-fired")
+		if first.Name == "stdout" && c.Flags.Print {
+			env.Probe("fault-on-stdout-in-print-mode")
+		}
+		env.Seen("fault|" + first.Name + "|" + first.Fault + "|" + c.Flags.String())
+		add := func(oracle, sig, detail string) {
+			s := "C06/" + oracle + "/" + sig
+			if seen[s] {
+				return
+			}
+			seen[s] = true
+			cc := c.Clone()
+			cc.Spec.Faults = faults
+			vs = append(vs, Violation{Oracle: oracle, Signature: s, Detail: detail + fmt.Sprintf(" [after injected %s on %s %s (%s, %d bytes let through); args %v]", first.Fault, first.Name, first.Path, first.Err, first.N, c.Spec.Args), Case: cc})
+		}
+		stdoutFaulted := false
+		for _, f := range r.Fired {
+			if f.Name == "stdout" {
+				stdoutFaulted = true
+			}
+		}
+		for _, f := range c.Files {
+			if f.Role != "nomatch" {
+				continue
+			}
+			before := FindState(init, f.Path)
+			after := FindState(r.Final, f.Path)
+			for _, o := range r.Log {
+				if o.Mut && !o.Post && (o.Path == f.Path || o.Path2 == f.Path || (before != nil && o.Ino == before.Ino)) {
+					add("touched-under-fault", o.Name, fmt.Sprintf("unmatched file %s was the target of mutating op %s", f.Path, o.Name))
+					break
+				}
+			}
+			switch {
+			case after == nil:
+				add("state-under-fault", "removed", fmt.Sprintf("unmatched file %s no longer exists", f.Path))
+			case before.Ino != after.Ino || !bytes.Equal(before.Data, after.Data) || before.Mtime != after.Mtime || before.Perm != after.Perm:
+				add("state-under-fault", "changed", fmt.Sprintf("unmatched file %s changed on disk (inode, bytes, mtime or mode)", f.Path))
+			}
+			if r.Outcome == OutExit && r.Exit == 0 && c.Flags.Print && !bytes.Contains(r.Stdout, before.Data) {
+				env.Probe("fault-exit0-echo-checked")
+				what := "although no output failed"
+				if stdoutFaulted {
+					what = "although writing the output failed"
+				}
+				add("print-echo", "incomplete-but-exit-0", fmt.Sprintf("exit status 0 %s, and --print-only did not echo the complete original bytes of unmatched file %s", what, f.Path))
+			}
+		}
+	}
+	if len(c.Spec.Faults) > 0 {
+		judge(c.Spec.Faults)
+		return vs
+	}
+	pilot := env.Run(base)
+	if pilot.Outcome != OutExit {
+		return nil
+	}
+	var seedv uint64
+	fmt.Sscan(c.Extra["rng"], &seedv)
+	r := world.NewPRNG(seedv)
+	wrote := wroteHandles(pilot.Log)
+	for k, o := range pilot.Log {
+		if o.Name == "exit" || o.Name == "stderr" {
+			continue
+		}
+		ens := c16Errnos[opClass(o, wrote)]
+		f := world.Fault{AtOp: k, Kind: "fail", Errno: ens[r.Intn(len(ens))]}
+		switch o.Name {
+		case "stdout":
+			// the first byte, the last byte, and one in between
+			for _, j := range []int{0, o.N - 1, r.Intn(o.N + 1)} {
+				if j >= 0 {
+					f.Bytes = j
+					judge([]world.Fault{f})
+				}
+			}
+			continue
+		case "write":
+			if o.N > 0 {
+				f.Bytes = r.Intn(o.N + 1)
+			}
+			f.Sticky = r.Chance(1, 2)
+		case "read", "stdin":
+			if o.N > 0 {
+				f.Bytes = r.Intn(o.N + 1)
+			}
+		}
+		judge([]world.Fault{f})
+		if r.Chance(1, 4) {
+			judge([]world.Fault{{AtOp: k, Kind: "kill", Bytes: -1}})
+		}
+	}
+	return vs
+}
+
 func (c06) Eval(env *Env, c *Case) []Violation {
+	if c.Sub == "fault" {
+		nn := 0
+		for _, f := range c.Files {
+			if f.Role == "nomatch" {
+				nn++
+			}
+		}
+		if nn == 0 {
+			return nil
+		}
+		return c06Faults(env, c)
+	}
 	var vs []Violation
 	add := func(oracle, sig, detail string) {
 		vs = append(vs, Violation{Oracle: oracle, Signature: "C06/" + oracle + "/" + sig, Detail: detail})
